@@ -23,11 +23,13 @@ import GocoinV.Proofs.C17Load
 import GocoinV.Proofs.C17Disk
 import GocoinV.Proofs.C17Addr
 import GocoinV.Proofs.C17Cfg
+import GocoinV.Proofs.C17Block
 namespace GocoinV.Props.C17
 open GocoinV.Model.Balances GocoinV.Spec.Balances GocoinV.Proofs.C17
 open GocoinV.Model.BalancesLoad GocoinV.Proofs.C17Load
 open GocoinV.Model.BalancesDisk GocoinV.Proofs.C17Disk
 open GocoinV.Model.BalancesCfg GocoinV.Proofs.C17Cfg
+open GocoinV.Model.BalancesBlock GocoinV.Proofs.C17Block
 
 /-- add_preserves (NewUTXO, one output): adding a qualifying coin that is not yet in the set through
     NewUTXO's loop body keeps the index equal to the projection — whatever the record's representation
@@ -557,6 +559,69 @@ theorem reload_is_cache_roundtrip (um : Nat) (m : List (Nat × Bal)) (ord : Nat 
   intro p hp
   simp only [Function.comp, norm_asSaved um (ord p.1) p.2 (hk p hp).2.nodup]
 
+/-! ### block connections in every sync state (Model.BalancesBlock) -/
+
+/-- Source facts (regenerated from /repo/lib/utxo on every run by go/cmd/gen_c17/guards.go) behind the block layer: WHAT
+    DECIDES WHETHER lib/utxo CALLS THE INDEX CALLBACKS. Per entry point through which a call site is reached, the
+    quantities the conditions guarding the call depend on (canonical form: field paths rooted in the type of the receiver /
+    parameter; locals, parameters of closures and of non-entry functions resolved to what the call chain passes):
+    through CommitBlockTxs, `CB.NotifyTxAdd(rec)` depends on the callback being installed and on the block's AddList,
+    `CB.NotifyTxDel(rec, outs)` on the callback being installed, the block's DeledTxs and the stored record being the one
+    named by the txid; through UndoBlockTxs additionally on the undo file being readable (it panics otherwise). Nothing
+    depends on `BlockChanges.Height`, `BlockChanges.LastKnownHeight`, `UnspentDB.UnwindBufLen`, `BlockChanges.UndoData`
+    or a property of the record: `connectBlock` runs the callbacks in every sync state. -/
+theorem callbacks_guarded_by_installation_only :
+    Gen.UtxoNotifyFacts.notifyAddGuards =
+      [("UnspentDB.CommitBlockTxs", ["BlockChanges.AddList", "UnspentDB.CB.NotifyTxAdd"]),
+       ("UnspentDB.UndoBlockTxs", ["UnspentDB.CB.NotifyTxAdd", "UnspentDB.LastBlockHeight", "UnspentDB.dir_undo",
+          "fmt.Sprint()", "os.ReadFile()"])] ∧
+    Gen.UtxoNotifyFacts.notifyDelGuards =
+      [("UnspentDB.CommitBlockTxs", ["BlockChanges.DeledTxs", "UnspentDB.CB.NotifyTxDel", "UnspentDB.HashMap", "bytes.Equal()"]),
+       ("UnspentDB.UndoBlockTxs", ["UnspentDB.CB.NotifyTxDel", "UnspentDB.HashMap", "btc.Block.Txs", "btc.Block.Txs.Hash.Hash",
+          "bytes.Equal()"])] :=
+  notify_facts
+
+/-- "… after EVERY block connection": a block is connected with the same effect on the unspent set AND on the index
+    whatever the node's sync state — its height, the height of the best known header (0, at the tip, 144 ahead, exactly
+    UnwindBufLen ahead, further: the node is "syncing" and keeps no undo data for the block), the unwind buffer length.
+    Together with `callbacks_guarded_by_installation_only` (the source has no guard that could make it otherwise). -/
+theorem connect_tells_index_in_every_sync_state (H : Bytes → Nat) (s : State) (b : BlockCh) (height lastKnown : Nat) :
+    connectBlock H s (b.inState height lastKnown) = connectBlock H s b :=
+  connectBlock_inState H s b height lastKnown
+
+/-- One block connection preserves "index = projection" in EVERY sync state, in particular for a block connected while
+    the node is far behind the best known header (`farBehind`: no undo data, the block can never be disconnected). -/
+theorem connect_preserves_in_every_sync_state (H : Bytes → Nat) (s : State) (b : BlockCh) (h : Inv H s)
+    (ha : AdmissibleRun H s b.work) : Inv H (connectBlock H s b) :=
+  inv_connectBlock b h ha
+
+/-- Undo data is kept exactly for the blocks connected at most `unwind` blocks behind the best known header (uint32
+    arithmetic of chain.commitTxs); `lastKnown = 0` (feature not used) always keeps it. -/
+theorem undo_kept_iff_not_far_behind (unwind : Nat) (b : BlockCh) :
+    (keepsUndo unwind b = true ↔ b.lastKnown ≤ (b.height + unwind) % 2 ^ 32) ∧
+    (farBehind unwind b = true ↔ (b.height + unwind) % 2 ^ 32 < b.lastKnown) ∧
+    (b.lastKnown = 0 → keepsUndo unwind b = true) := by
+  refine ⟨?_, ?_, ?_⟩
+  · unfold keepsUndo U32; exact decide_eq_true_iff
+  · unfold farBehind keepsUndo U32
+    rw [Bool.not_eq_true', decide_eq_false_iff_not, Nat.not_le]
+  · intro h0; simp [keepsUndo, h0]
+
+/-- Central theorem over BLOCK-level histories: blocks connected in any sync states (each `connect` carries its own height
+    and best-known-header height: at the tip, catching up, far behind), blocks disconnected, the index switched on / off /
+    restarted through the cache in between. While the index is on, for every address GetAllUnspent is duplicate-free, is
+    exactly the projection of the unspent set (outputs ≥ min whose script maps to the address's key, with the right
+    txid / vout / value / height / coinbase flag), and the total is their sum. -/
+theorem balances_eq_projection_block_histories (H : Bytes → Nat) (h : List BEv)
+    (hadm : AdmissibleRun H State.init (flat h)) (a : Addr) (hon : (runB H State.init h).on = true) :
+    let s := runB H State.init h
+    (getAllUnspent H s a).Nodup ∧
+    (∀ x, x ∈ getAllUnspent H s a ↔ ∃ r o, aget (x.txid.take 8) s.utxo = some r ∧ outAt r.outs x.vout = some o ∧
+        s.cfg.min ≤ o.value ∧ script2idx H o.script = some (a.idx, H a.payload) ∧
+        x = { txid := r.txid, vout := x.vout, value := o.value, minedAt := r.inBlock, coinbase := r.coinbase }) ∧
+    total H s a = sumValues (getAllUnspent H s a) % M64 :=
+  getAll_spec a (inv_runB h State.init (inv_init H) hadm) hon
+
 /-! ### non-vacuity -/
 
 def exScr : Bytes := [0x00, 0x14] ++ List.replicate 20 1
@@ -730,5 +795,23 @@ example : relayout 5 [(rKey, 2), (rKey, 0)] { value := 0, unsp := [(rKey, 0), (r
   shrunk_map_reloads_as_list_in_any_order 5 _ _ rfl (by decide +kernel) (by decide)
 example : Inv exH (run exH State.init (zEvs 2)) := inv_all_histories exH (zEvs 2) (by
   refine ⟨trivial, ?_, trivial, trivial⟩; (show aget _ _ = none); decide +kernel)
+
+/-! block layer: the index is ON (switched on at block 5 / restored at start-up); block 6 arrives while the best known
+    header is 2561 blocks ahead (unwind buffer 2560: far behind, no undo data), pays `exAddr` 10 and 3 to OP_TRUE; block 7
+    (still far behind) spends the 10: the index is told both times. The same two blocks at the tip give the same state. -/
+def syncB1 : BlockCh := { height := 6, lastKnown := 6 + 2560 + 1, work := [.add exRec] }
+def syncB2 : BlockCh := { height := 7, lastKnown := 6 + 2560 + 1, work := [.del exRec.txid [true, false, false]] }
+def syncHist : List BEv := [.ctl (.enable 5 2), .connect syncB1]
+example : farBehind 2560 syncB1 = true ∧ keepsUndo 2560 (syncB1.inState 6 (6 + 2560)) = true ∧ farBehind 2560 syncB2 = false ∧
+    keepsUndo 2560 (syncB1.inState 6 0) = true := by decide +kernel
+example : AdmissibleRun exH State.init (flat syncHist) := by
+  refine ⟨trivial, ?_, trivial⟩; (show aget _ _ = none); decide +kernel
+example : (runB exH State.init syncHist).on = true := by decide +kernel
+example : getAllUnspent exH (runB exH State.init syncHist) exAddr =
+    [{ txid := List.replicate 32 7, vout := 0, value := 10, minedAt := 5, coinbase := false }] ∧
+    total exH (runB exH State.init syncHist) exAddr = 10 := by decide +kernel
+example : getAllUnspent exH (runB exH State.init (syncHist ++ [.connect syncB2])) exAddr = [] ∧
+    aget (exAddr.idx, exH exAddr.payload) (runB exH State.init (syncHist ++ [.connect syncB2])).bal = none := by decide +kernel
+example : runB exH State.init [.ctl (.enable 5 2), .connect (syncB1.inState 6 6)] = runB exH State.init syncHist := rfl
 
 end GocoinV.Props.C17
